@@ -248,6 +248,21 @@ PROPS["C11"] = {
 }
 
 
+SRV_WRAPS = ["-Wl,--wrap=send,--wrap=epoll_wait,--wrap=clock_gettime"]
+
+PROPS["C13"] = {
+    "level": "fault_enumeration",
+    "engine": "opfuzz + fault injection",
+    "level_text": "three paired Server clients per case; the harness owns send() on the server-side descriptors (--wrap=send) and applies a generated fault script (would-block, partial counts incl. 1-byte partials, full; adversarial shapes) on top of whatever the kernel does with a small send buffer, owns the clock and epoll_wait, and runs generated actions (writes of 1..5000 pattern bytes, suspend, resume, peer reads and writes, queries) from a 1 ms driver timer inside Server::run() and between runs; the peer verifies the byte stream position by position",
+    "level_note": "trusted: the send / epoll_wait / clock_gettime wrappers in harness/srv_common.hpp, the pattern generator, the kernel's socketpair; the fault sequence is the generated dimension, the reported backlog is compared with (accepted bytes - bytes the kernel took) computed from the intercepted send log",
+    "technique": "stateful property-based testing with injected send faults (fault sequence = generated input) and a byte-stream oracle at the peer",
+    "rule": "case = optional small kernel send buffer, a fault script of 0..2*size entries (shapes: mixture, would-block phase then full, 1-byte partials, alternating, large partials), 3..size actions. Oracle: bytes handed to the kernel are a prefix of the accepted stream and the peer finally receives exactly the accepted bytes in order; 'postponed' and getSendBufferSize() equal accepted minus handed; onWrite exactly once per drain and never with backlog; no onRead between suspend() and resume(); ASan. "
+            "Non-trivial = a partial send or would-block left a backlog, a further write happened while the backlog was non-empty, and the backlog drained (onWrite); distinct by case text hash.",
+    "assumptions": ["Client::write gets size >= 1", "the peer of a pair()ed client is a local stream socket"],
+    "parts": [opf("server", ["harness/c13_server.cpp"], {"cases": 250000, "maxsize": 40}, {"cases": 300000, "maxsize": 80, "workers": 16}, ldflags=SRV_WRAPS, deps=["harness/srv_common.hpp"])],
+}
+
+
 # property modules kept in separate files (props_cXX.py define PROPS["CXX"] using the helpers above)
 import glob as _glob, os as _os
 for _f in sorted(_glob.glob(_os.path.join(_os.path.dirname(_os.path.abspath(__file__)), "props_c*.py"))):
